@@ -26,10 +26,110 @@ def sort_jobs(tier):
                   kf_group="c13_sort_cmp", witnesses=["end", "chain a<b<c"],
                   bound="rfc6724_compare on three arbitrary sort elements (family, 28 address bytes, source address bytes of any family, "
                         "has_src_addr all symbolic; distinct original positions): antisymmetric, total, transitive"))
+    J.append(dict(name="c13_sort_cmp_srcfam", harness="sort.c", defines=["-DMODE=1", "-DSRC_FAMILY_MATCHES"], real=LIB, unwind=30, mem_gb=6,
+                  timeout=240, kf_group="c13_sort_cmp", witnesses=["end", "chain a<b<c"],
+                  bound="same, with every source address of the destination's own family (what a real getsockname reports)"))
+    return J
+
+
+def sortlist_jobs(tier):
+    J = []
+    for fam in (4, 6):
+        for n in (0, 1, 2, 3):
+            for ns in ((1, 2) if n else (2,)):
+                J.append(dict(name="c13_sortlist_v%d_n%d_ns%d" % (fam, n, ns), harness="sortlist.c",
+                              defines=["-DFAM=%d" % fam, "-DNN=%d" % n, "-DNS=%d" % ns],
+                              real=LIB + ["src/lib/ares_update_servers.c"], unwind=130 if fam == 6 else 34, mem_gb=6, timeout=240,
+                              witnesses=["end"] + (["pattern matched"] if n else []) + (["order changed"] if n >= 2 else []),
+                              bound="sort%s_addresses on %d addresses (all bytes symbolic) with %d sortlist patterns (family, address, "
+                                    "prefix length symbolic)" % ("" if fam == 4 else "6", n, ns)))
+    return J
+
+
+HE_REAL = LIB + ["src/lib/ares_addrinfo2hostent.c", "src/lib/ares_free_hostent.c", "src/lib/str/ares_str.c"]
+
+
+def hostent_jobs(tier):
+    J = []
+    pats = [(0, "0"), (1, "4"), (1, "6"), (2, "46"), (2, "64"), (2, "44"), (3, "464"), (3, "446"), (3, "664"), (3, "666")]
+    k = 0
+    for n, p in pats:
+        for req in (0, 4, 6):
+            for nc in ((0, 1, 2) if (n, p) in ((0, "0"), (3, "464")) else ((0, 2)[k % 2],)):
+                k += 1
+                nmatch = sum(1 for c in p if c == str(req)) if req else (sum(1 for c in p if c == p[0]) if n else 0)
+                w = ["end"]
+                if n == 0 and req == 0:
+                    w.append("no family")
+                elif nmatch == 0 and nc == 0:
+                    w.append("no data")
+                else:
+                    w.append("converted")
+                    if 0 < nmatch < n:
+                        w.append("family filter dropped a node")
+                J.append(dict(name="c13_hostent_n%d_%s_req%d_nc%d" % (n, p, req, nc), harness="hostent.c",
+                              defines=["-DMODE=0", "-DNN=%d" % n, "-DFAMS=%s" % p, "-DREQ=%d" % req, "-DNC=%d" % nc],
+                              real=HE_REAL, unwind=30, leak=True, mem_gb=6, timeout=240, witnesses=w,
+                              bound="ares_addrinfo2hostent: %d nodes of families %s (addresses/TTLs symbolic), %d CNAME entries, requested "
+                                    "family %s" % (n, p, nc, {0: "AF_UNSPEC", 4: "AF_INET", 6: "AF_INET6"}[req])))
+    for n, p in [(2, "46"), (3, "464"), (3, "446"), (3, "444"), (3, "666"), (0, "0")]:
+        for req in (4, 6):
+            for cap in ((0, 1, 2, 3) if p == "464" else (1, 2, 3)):
+                nc = (cap + n) % 3
+                nmatch = sum(1 for c in p if c == str(req))
+                w = ["end"]
+                if cap and nmatch > cap:
+                    w.append("capacity limits the result")
+                if cap and 0 < nmatch < n:
+                    w.append("family filter dropped a node")
+                J.append(dict(name="c13_addrttl_n%d_%s_req%d_cap%d" % (n, p, req, cap), harness="hostent.c",
+                              defines=["-DMODE=1", "-DNN=%d" % n, "-DFAMS=%s" % p, "-DREQ=%d" % req, "-DNC=%d" % nc, "-DCAP=%d" % cap],
+                              real=HE_REAL, unwind=30, leak=True, mem_gb=6, timeout=240, witnesses=w,
+                              bound="ares_addrinfo2addrttl: %d nodes of families %s, %d CNAME entries (TTLs symbolic), family AF_INET%s, "
+                                    "output array of exactly %d elements" % (n, p, nc, "" if req == 4 else "6", cap)))
+    return J
+
+
+REC = ["src/lib/record/ares_dns_mapping.c", "src/lib/record/ares_dns_multistring.c", "src/lib/record/ares_dns_name.c",
+       "src/lib/record/ares_dns_record.c"]
+BASE = ["src/lib/str/ares_buf.c", "src/lib/str/ares_str.c", "src/lib/dsa/ares_array.c", "src/lib/dsa/ares_llist.c",
+        "src/lib/util/ares_math.c", "src/lib/ares_library_init.c"]
+INTO_REAL = REC + BASE + ["src/lib/ares_parse_into_addrinfo.c", "src/lib/ares_getaddrinfo.c", "src/lib/ares_addrinfo_localhost.c",
+                          "src/lib/ares_freeaddrinfo.c"]
+MEM_SUP = ["vp_rt.c", "valloc.c", "memloops.c", "c13_mem.c"]
+
+
+def into_jobs(tier):
+    J = []
+    if tier == "quick":
+        shapes = ["", "A", "6", "C", "X", "H", "AA", "A6", "6A", "CA", "C6", "CC", "XA", "HA", "CAA", "CA6", "CCA", "A6A", "AXA", "CH6",
+                  "C6X", "CCC"]
+    else:
+        al = "A6CXH"
+        shapes = [""] + [a for a in al] + [a + b for a in al for b in al] + [a + b + c for a in al for b in al for c in al]
+    for sh in shapes:
+        naddr = sum(1 for c in sh if c in "A6")
+        ncn = sh.count("C")
+        w = ["end"]
+        if naddr == 0:
+            w.append("nodata")
+            if ncn:
+                w.append("cname only accepted")
+        else:
+            w.append("accepted")
+            if naddr >= 2:
+                w.append("two or more addresses")
+        J.append(dict(name="c13_into_addrinfo_%s" % (sh or "empty"), harness="into_addrinfo.c", defines=["-DSHAPE=" + q(sh)],
+                      real=INTO_REAL, support=MEM_SUP, unwind=40, unwindset=["memset.0:300", "memset.1:40"], leak=True, mem_gb=6, timeout=240, witnesses=w,
+                      bound="ares_parse_into_addrinfo on a record built with the record API: question q.x A IN, answers %s "
+                            "(A / 6=AAAA / C=CNAME / X=NS / H=A class CHAOS), addresses, TTLs, port, cname_only flag symbolic" % (sh or "none")))
     return J
 
 
 def jobs(tier, seed):
     J = []
     J += sort_jobs(tier)
+    J += sortlist_jobs(tier)
+    J += hostent_jobs(tier)
+    J += into_jobs(tier)
     return J
